@@ -519,6 +519,31 @@ def admission_scenario(rng, idx, tag):
     return sc
 
 
+def dns_scenarios(rng, tag, n):
+    """growth: secret configurations of the DNS provider type (alone or mixed with prefix ones); connections are only
+    admitted or refused, nothing is fed (divergence-only comparison with Admission!AdmitNamed)"""
+    names = ["localhost", "localhost.", "vm", "runsc", "Localhost", "router1.example.net", "vm."]
+    out = []
+    for i in range(n):
+        cfg = base_cfg(rng, tag)
+        secs = []
+        for j in range(rng.randint(1, 3)):
+            if rng.random() < 0.7:
+                hosts = rng.sample(names, rng.randint(1, 3))
+                secs.append({"name": "d%d" % j, "nameb": "d%d" % j, "key": "dns-key-%d-%s" % (j, tag), "prefixes": [], "nohandler": False,
+                             "kind": "dns", "hosts": hosts, "hostsb": [list(h.encode()) for h in hosts]})
+            else:
+                secs.append(dict(secret("p%d" % j, "pfx-key-%d-%s" % (j, tag), [rng.choice(["127.0.0.0/8", "127.0.0.2/32", "10.1.0.0/16"])])))
+        for u in cfg["users"]:
+            u["scopes"] = [s_["name"] for s_ in secs]
+        cfg["secrets"] = secs
+        if rng.random() < 0.2:
+            cfg["deny"] = [prefix("127.0.0.2/32")]
+        conns = [{"c": k + 1, "addr": a} for k, a in enumerate(rng.sample(["127.0.0.1", "127.0.0.2", "10.1.0.5", "::1"], 3))]
+        out.append({"id": "dns-%d" % i, "cfg": cfg, "conns": conns, "steps": [], "iso": False, "log": False})
+    return out
+
+
 def scenario(rng, idx, prop, tag):
     if prop == "C13":
         return admission_scenario(rng, idx, tag)
@@ -823,6 +848,8 @@ def collect(ctx, prop):
         scen = c19_ref_scenarios(rng, tag, 300 if quick else 6000)
     else:
         scen = [scenario(rng, i, prop, tag) for i in range(n)]
+    if prop == "C13":
+        scen += dns_scenarios(random.Random("dns-%d" % ctx.seed), tag, 30 if quick else 300)
     if prop == "C09":
         scen += exhaustive_c09(rng, tag, 300 if quick else 6000)
         scen += overlap_c09(rng, tag, 150 if quick else 3000)
